@@ -274,7 +274,7 @@ def rule_nsec(ctx, F):
 
 
 UPSTREAM_ERR = re.compile(r"(base::wire::ParseError|octseq::(parse::)?ShortInput|utils::base\d+::DecodeError|base64::DecodeError|"
-                          r"dnssec::common::Nsec3HashError|core::str::Utf8Error|base::name::.*Error|ShortMessage)")
+                          r"dnssec::common::Nsec3HashError|core::str::Utf8Error|base::name::.*Error|ShortMessage|LongRecordData)")
 PANIC_AUDIT = {
     # (fn regex, callee last segment): reason
     (r"cached_nsec3_hash", "nsec3_hash"): "every caller checks supported_nsec3_hash(algorithm) first; the only other error is an "
